@@ -97,12 +97,15 @@ structure FnDef where
   params : List (String × TyE) := []
   ret : Option TyE := none
   body : Expr := .lit .unit
+  /-- the source text of every attribute (`ast::Attribute.text`), in order -/
+  attrs : List String := []
   deriving Inhabited
 
 structure EnumDef where
   name : String
   generics : List String := []
   variants : List (String × List TyE) := []
+  attrs : List String := []
   deriving Inhabited
 
 structure StructDef where
@@ -110,12 +113,14 @@ structure StructDef where
   generics : List String := []
   /-- DECLARATION order: the stored representation of a struct value follows it -/
   fields : List (String × TyE) := []
+  attrs : List String := []
   deriving Inhabited
 
 structure TraitDef where
   name : String
   /-- method name, parameter types (receiver first), result -/
   sigs : List (String × List TyE × TyE) := []
+  attrs : List String := []
   deriving Inhabited
 
 structure ImplDef where
@@ -123,6 +128,7 @@ structure ImplDef where
   traitName : Option (List String) := none
   forTy : TyE := .unit
   methods : List FnDef := []
+  attrs : List String := []
   deriving Inhabited
 
 structure ExternDef where
@@ -132,6 +138,11 @@ structure ExternDef where
   goPackage : String := ""
   goSymbol : String := ""
   arity : Nat := 0
+  /-- as lowered (`ExternGo` / `ExternBuiltin`): the parameters, the result, whether a Go symbol was written -/
+  params : List (String × TyE) := []
+  ret : Option TyE := none
+  explicitSymbol : Bool := false
+  attrs : List String := []
   deriving Inhabited
 
 inductive Item where
